@@ -6,6 +6,6 @@ CONSTANTS
   Alphabet = "small"
 SPECIFICATION Spec
 VIEW MachineView
-INVARIANTS TypeOK EqIffCellsAgree DiffOK AreaTight ObsOK PatternBack PatternDomain
+INVARIANTS FillFastIsFill TypeOK EqIffCellsAgree DiffOK AreaTight ObsOK PatternBack PatternDomain
 PROPERTIES StepProp
 CHECK_DEADLOCK FALSE
